@@ -46,6 +46,7 @@ type Closure struct {
 	Opt    []OptParam // &optional parameters after the required ones
 	Body   []Val
 	Env    *Env
+	Defun  bool // made by defun: the body is an implicit block named after the function
 }
 
 type cell struct{ v Val }
@@ -356,7 +357,10 @@ func (m *Machine) Apply(f *Closure, args []Val) []Val {
 			env.bind(op.Name, m.evalOne(op.Default, env))
 		}
 	}
-	// a function body is an implicit block named after the function (defun) - generated programs do not use it
+	// the body of a function made by defun is an implicit block named after the function
+	if f.Defun {
+		return m.inBlock(f.Name, env, func(be *Env) []Val { return m.body(f.Body, be) })
+	}
 	return m.body(f.Body, env)
 }
 
@@ -541,7 +545,7 @@ func (m *Machine) evalForm(form []Val, env *Env) []Val {
 		return single(&Closure{Name: "lambda", Params: params(args[0]), Opt: optParams(args[0]), Body: args[1:], Env: env})
 	case "defun":
 		fn := symName(args[0])
-		m.Funcs[fn] = &Closure{Name: fn, Params: params(args[1]), Opt: optParams(args[1]), Body: args[2:], Env: env}
+		m.Funcs[fn] = &Closure{Name: fn, Params: params(args[1]), Opt: optParams(args[1]), Body: args[2:], Env: env, Defun: true}
 		return single(Sym(fn))
 	case "defmacro":
 		fn := symName(args[0])
